@@ -12,6 +12,15 @@
      "bs"   ..\           backslash form: a literal (non-existent) name on POSIX
      "sib"  www_evil      the sibling directory whose name extends the root's
      "sec"  secret.txt    the secret file of the parent directory
+   Exotic tokens (segments that cannot name anything: after ONE level of decoding
+   they contain a NUL byte, an invalid UTF-8 escape, or are too long for a file
+   name; every os.* call on them either says "no such file" or raises):
+     "n0"   %00           a NUL alone
+     "fn"   f.txt%00      NUL at the end of an existing name (truncation attack)
+     "nf"   f%00.txt      NUL inside a name
+     "dn"   ..%00         NUL next to "..": a literal name, NOT the parent
+     "xff"  %ff           not UTF-8: unquote() yields U+FFFD, a literal name
+     "long" aaa...a (300) longer than NAME_MAX: stat() fails with ENAMETOOLONG
 
    Abstract file system (positions are name sequences below the directory G
    that the driver creates; `above` counts levels above G):
@@ -38,7 +47,12 @@
    a canonical path (plain existing names only) that denotes a file.          *)
 EXTENDS Integers, Sequences, FiniteSets
 
-Tokens == {"dd", "d", "e", "dir", "file", "miss", "e1", "e2", "es", "bs", "sib", "sec"}
+BaseTokens   == {"dd", "d", "e", "dir", "file", "miss", "e1", "e2", "es", "bs", "sib", "sec"}
+ExoticTokens == {"n0", "fn", "nf", "dn", "xff", "long"}
+Tokens == BaseTokens \cup ExoticTokens
+
+(* literal names that carry a NUL after decoding *)
+NulNames == {"lit_nul", "lit_f.txt_nul", "lit_f_nul_.txt", "lit_.._nul"}
 
 (* one level of percent-decoding, re-split on "/" *)
 Decode1(t) ==
@@ -54,6 +68,12 @@ Decode1(t) ==
     [] t = "bs"   -> <<"lit_..bs">>
     [] t = "sib"  -> <<"www_evil">>
     [] t = "sec"  -> <<"secret.txt">>
+    [] t = "n0"   -> <<"lit_nul">>
+    [] t = "fn"   -> <<"lit_f.txt_nul">>
+    [] t = "nf"   -> <<"lit_f_nul_.txt">>
+    [] t = "dn"   -> <<"lit_.._nul">>
+    [] t = "xff"  -> <<"lit_fffd">>
+    [] t = "long" -> <<"lit_long">>
     [] OTHER      -> <<"lit_unknown">>
 
 RECURSIVE Segs(_)
